@@ -101,7 +101,7 @@ class DeckRun:
             try:
                 sp = part.related_part(rid)
             except KeyError:
-                slides.append({"sid": sid, "sidOk": False, "pname": "<<missing:%s>>" % rid, "pnum": -1, "sh": [], "rels": [], "refs": []})
+                slides.append({"sid": sid, "sidOk": False, "pname": "<<missing:%s>>" % rid, "pnum": -1, "sh": [], "rels": [], "refs": [], "refsBy": []})
                 continue
             pname = str(sp.partname)
             m = re.match(r"^/ppt/slides/slide([1-9]\d*)\.xml$", pname)
@@ -121,8 +121,23 @@ class DeckRun:
                 ext = bool(rel.is_external)
                 rels.append({"rid": str(rel.rId), "tgt": str(rel._target) if ext else str(rel.target_part.partname), "ext": ext})
             refs = sorted({v for el in root.iter() if isinstance(el.tag, str) for k, v in el.attrib.items() if k.startswith("{%s}" % NS_R) and v != ""})
+            refs_by = []
+            shape_tags = {"{%s}%s" % (NS_P, t) for t in ("sp", "pic", "graphicFrame", "cxnSp", "grpSp")}
+            for el in root.iter():
+                if not isinstance(el.tag, str):
+                    continue
+                for k, v in el.attrib.items():
+                    if k.startswith("{%s}" % NS_R) and v != "":
+                        anc = el
+                        while anc is not None and anc.tag not in shape_tags:
+                            anc = anc.getparent()
+                        owner = ""
+                        if anc is not None:
+                            cnv = next(anc.iter(_CNVPR), None)
+                            owner = cnv.get("id", "") if cnv is not None else ""
+                        refs_by.append({"sh": owner, "rid": v})
             ok = bool(re.match(r"^\d+$", sid or "")) and 256 <= int(sid) <= 2147483647
-            slides.append({"sid": sid, "sidOk": ok, "pname": pname, "pnum": int(m.group(1)) if m else -1, "sh": sh, "rels": rels, "refs": refs})
+            slides.append({"sid": sid, "sidOk": ok, "pname": pname, "pnum": int(m.group(1)) if m else -1, "sh": sh, "rels": rels, "refs": refs, "refsBy": refs_by})
         parts = [str(p.partname) for p in part.package.iter_parts()]
         return {"slides": slides, "parts": parts, "acc": self.acc}
 
@@ -386,8 +401,12 @@ def run_history(hid: str, h: list[dict], final_saved: bool = True, facets_on: bo
             b = io.BytesIO()
             run.prs.save(b)
             before_saved = D.read_zip(io.BytesIO(b.getvalue()))
+        tid = ""
+        prev = steps[-1]["t"]
+        if a.get("j") and a.get("k") and a["k"] <= len(prev["slides"]) and a["j"] <= len(prev["slides"][a["k"] - 1]["sh"]):
+            tid = prev["slides"][a["k"] - 1]["sh"][a["j"] - 1]["id"]
         out = run.apply(a)
-        steps.append({"a": a, "out": out, "t": run.observe()})
+        steps.append({"a": dict(a, tid=tid), "out": out, "t": run.observe()})
         if a["op"] in ("save", "reopen"):
             saves.append({"at": i, "z": run.saved(st, False, raw=run.last_saved)})
         if before_saved is not None:
